@@ -248,11 +248,13 @@ func genCfgExtras(t *rapid.T, c *Cfg, allowSecure bool) {
 	}
 	c.Methode = rapid.SampledFrom([]string{"", "POST", "post"}).Draw(t, "methode")
 	// a TLS listener generates its certificate on start (seconds of CPU): rare
-	rate := 2999 // quick: a handful of TLS listeners per run
+	// rapid favours the ends of an integer range, so "rare" is a conjunction of two
+	// mid-range hits: about 1/3000 in the quick tier, 1/900 in the thorough one
+	span := 59
 	if core.Tier() == "thorough" {
-		rate = 799
+		span = 29
 	}
-	if allowSecure && rapid.IntRange(0, rate).Draw(t, "secure") == 0 {
+	if allowSecure && rapid.IntRange(0, span).Draw(t, "secure-1") == span/2+3 && rapid.IntRange(0, 49).Draw(t, "secure-2") == 23 {
 		c.Secure = true
 	}
 }
@@ -1070,7 +1072,7 @@ func TestMain(m *testing.M) {
 func TestC12a(t *testing.T) {
 	core.Run(t, core.Spec[Case]{
 		Property: "C12", Sub: "a",
-		Rule: "every field of HTTPConfig is drawn: besides those below, 1-3 Hosts with/without port, HostHeader (unset / a name / name:port / equal to a host / resembling one), rotation, PortConn, proxy settings, kill date, working hours, method spelling, TLS (rarely - 1/3000 quick, 1/800 thorough: a real certificate is generated); requests additionally draw Request.Host (the canonical one = HostHeader or a host, case variant, port added/removed, one of Hosts, the bind address, garbage, empty, another host) and 0-3 further headers with names that are not configured (X-Forwarded-Host, Referer, Origin, Cookie, Content-Type, X-Real-IP, Forwarded, Authorization): by the statement none of these influences admission. Admission-relevant part: listener configuration (0-4 URIs with/without query or the [\"\"] form, user agent set/unset, 0-4 request headers 'Name: value' incl. the ignored Connection/Accept-Encoding and values containing ': ' and ':', 0-3 response headers with values containing ':', redirector flag) on the real handlers.HTTP after Start(); 1-6 requests generated around that configuration: the canonical Demon request, or with one / several of {GET,PUT,HEAD, wrong path, extra query, path case, path suffix, header missing/wrong/case/truncated/extended, user agent wrong/missing/case, ignored header altered}, IPv4 and IPv6 peers, X-Forwarded-For present or not; body = valid registration. Oracle from the statement: admitted => all constraints hold; all hold => admitted with 200 + registration reply + every response header with its full value + ExternalIP = peer IP (or X-Forwarded-For iff redirector); otherwise 404 and no recorder event. Non-trivial: >=1 configured constraint and a request that satisfies all or violates exactly one; distinct = (constraint bucket, redirector, config feature, verdict kind of the first non-trivial request)",
+		Rule: "every field of HTTPConfig is drawn: besides those below, 1-3 Hosts with/without port, HostHeader (unset / a name / name:port / equal to a host / resembling one), rotation, PortConn, proxy settings, kill date, working hours, method spelling, TLS (rarely - about 1/3000 quick, 1/1500 thorough: a real certificate is generated); requests additionally draw Request.Host (the canonical one = HostHeader or a host, case variant, port added/removed, one of Hosts, the bind address, garbage, empty, another host) and 0-3 further headers with names that are not configured (X-Forwarded-Host, Referer, Origin, Cookie, Content-Type, X-Real-IP, Forwarded, Authorization): by the statement none of these influences admission. Admission-relevant part: listener configuration (0-4 URIs with/without query or the [\"\"] form, user agent set/unset, 0-4 request headers 'Name: value' incl. the ignored Connection/Accept-Encoding and values containing ': ' and ':', 0-3 response headers with values containing ':', redirector flag) on the real handlers.HTTP after Start(); 1-6 requests generated around that configuration: the canonical Demon request, or with one / several of {GET,PUT,HEAD, wrong path, extra query, path case, path suffix, header missing/wrong/case/truncated/extended, user agent wrong/missing/case, ignored header altered}, IPv4 and IPv6 peers, X-Forwarded-For present or not; body = valid registration. Oracle from the statement: admitted => all constraints hold; all hold => admitted with 200 + registration reply + every response header with its full value + ExternalIP = peer IP (or X-Forwarded-For iff redirector); otherwise 404 and no recorder event. Non-trivial: >=1 configured constraint and a request that satisfies all or violates exactly one; distinct = (constraint bucket, redirector, config feature, verdict kind of the first non-trivial request)",
 		Gen:  gen, Check: check, Classify: classify,
 		Assumptions: []string{
 			"requests are delivered in-process through GinEngine.ServeHTTP with canonical header names and trimmed values, as net/http's server delivers them",
